@@ -697,6 +697,8 @@ def c19(ctx):
             "operation both DMaps are read completely (every key through a random client path, a full scan, every member's primary and backup fragments); "
             "every third sequence, and every operation sequence up to length %d (all of them, exported with the log in the view, on every cluster shape), runs quietly: only through "
             "long-lived embedded handles obtained before any Destroy and observed once at its end, white box first, because reads between the operations touch every member; "
+            "the counterexample of FragLife_byname.cfg forced with a gate (a Delete of a missing key parked at del.locked keeps the janitor waiting for the lock of an empty "
+            "fragment while Destroy wipes it and a Put creates the next one); "
             "non-trivial = the sequence touches both DMaps") % (3 if quick else 4, 2 if quick else 3)
     r = vlib.design_check(ctx, "Isolation", "Isolation.cfg", consts={"Export": "TRUE", "MaxOps": 3 if quick else 4}, name="isolation-design")
     behs = sorted(set(vlib.behaviours(r)))
@@ -704,13 +706,18 @@ def c19(ctx):
     r2 = vlib.design_check(ctx, "Isolation", "Isolation.cfg", consts={"Export": "TRUE", "AllPaths": "TRUE", "MaxOps": 2 if quick else 3},
                            name="isolation-allpaths")
     allp = sorted(set(vlib.behaviours(r2)))
+    # the life of a fragment slot: creation on demand, the janitor, Destroy (which does not take the fragment lock); the two
+    # configurations of the code as found must violate Readable (D19: no second look after the lock; D39: map entry removed by name)
+    vlib.design_check(ctx, "FragLife", "FragLife.cfg", name="fraglife")
+    vlib.design_expect_violation(ctx, "FragLife", "FragLife_old.cfg", "Readable", "D19 (repaired)", name="fraglife-old")
+    vlib.design_expect_violation(ctx, "FragLife", "FragLife_byname.cfg", "Readable", "D39 (repaired)", name="fraglife-byname")
     out = ctx.dir("drv")
     behfile = os.path.join(out, "beh.jsonl")
     open(behfile, "w").write("\n".join(behs) + "\n")
     allfile = os.path.join(out, "all.jsonl")
     open(allfile, "w").write("\n".join(allp) + "\n")
     return det_run(ctx, "reg", "TestC19", "c19.ndjson", "c19.summary.json", "IsolationTrace", "IsolationTrace.cfg",
-                   {"VERIF_BEH": behfile, "VERIF_BEH_ALL": allfile, "VERIF_C19_RANDOM": 30 if quick else 4000, "VERIF_C19_BACKGROUND": 2 if quick else 12, "VERIF_OUT": out}, [], rule, "DMap isolation and Destroy",
+                   {"VERIF_BEH": behfile, "VERIF_BEH_ALL": allfile, "VERIF_C19_RANDOM": 30 if quick else 4000, "VERIF_C19_BACKGROUND": 2 if quick else 12, "VERIF_C19_WIPERACE": 2 if quick else 12, "VERIF_OUT": out}, [], rule, "DMap isolation and Destroy",
                    tags_of=lambda head, evs, line, msg: {"msg": msg})
 
 
